@@ -237,7 +237,7 @@ def _map_to_station_ids(
     :return: the price data organized by StationId
     """
     updated = {}  # refactor using immutables.Map()?
-    for k in this_update.keys():
+    for k in sorted(this_update.keys()):
         if k in sim.stations:
             # k is a StationId; leave as is
             updated.update({k: this_update[k]})
@@ -271,7 +271,10 @@ def _map_to_station_ids(
 
                 # all of these station ids should get entries managers the provided geoid
                 for station_id in station_ids:
-                    updated.update({station_id: this_update[k]})
+                    # several regions may name the same station: keep the entries of all of them
+                    previous = updated.get(station_id)
+                    merged = this_update[k] if previous is None else previous.update(this_update[k])
+                    updated.update({station_id: merged})
 
             except ValueError as e:
                 # todo: handle failure here
